@@ -23,8 +23,8 @@ RULE = ("AVL: every insertion order of 1..7 distinct keys (each followed by a re
         "duplicate or successful lookup; distinct = distinct script text")
 TRUSTED_BASE = [
     "pointer structure: heap-level models (ModelHeap.v) of the AVL tree (left/right/parent) and the hash chains "
-    "(prev/next, sentinel heads) are proved to refine the functional models and to keep the links consistent, except "
-    "the data-swap loop of AVL removal (see notes); the heap models themselves are hand transcriptions of the C pointer "
+    "(prev/next, sentinel heads) are proved to refine the functional models and to keep the links consistent for "
+    "every history; the heap models themselves are hand transcriptions of the C pointer "
     "assignments, tied to the code by the driver's walk of the real nodes after every operation and by running the heap "
     "model alongside in the model driver; trie child arrays are a finite map in the model; malloc / memory-pool "
     "allocation is assumed to succeed and hands out fresh ids (failure is property C18; free is not modelled); the "
@@ -45,22 +45,23 @@ EVIDENCE_NOTES = [
     "key, prefixes, bytes >= 0x80 (repaired index), trie_remove_present_true, trie_high_bytes, "
     "trie_unrepaired_index_out_of_bounds",
     "PROVED in Coq at HEAP level (ModelHeap.v: node ids, left/right/parent and prev/next fields, the C functions' pointer "
-    "assignments in order): havl_parent_links_consistent (parent(child(x)) = x for every node, root's parent NULL, "
+    "assignments in order): havl_refines_map / havl_refines_map_from: EVERY history of insert / find / remove run by the "
+    "pointer programs never gets stuck, answers like the functional model and leaves a heap that represents the "
+    "functional model's tree; havl_parent_links_consistent (parent(child(x)) = x for every node, root's parent NULL, "
     "wherever the representation holds); havl_rebalance_refines (+ havl_rebalance_is_model): the four rotations and "
     "rebalance rewrite left/right/parent/root exactly as the functional rotation requires — dropping a parent "
-    "assignment in the heap model breaks this proof (tried); havl_insert_refines: the whole insert (descent, linking "
-    "of the new node, retracing upward through the parent links, rebalance) refines the functional insert and keeps "
-    "the representation; havl_refines_map_partial: every history of inserts and finds; "
-    "havl_remove_retrace_refines: the retracing loop of remove incl. rotations continuing upward; "
-    "havl_remove_leaf_refines: removal of a node that is a leaf (unlink + retracing) refines the functional model; "
-    "hht_refines_map: EVERY history of put/find/remove on the chained table with sentinel heads and prev/next links, "
-    "any hash function; hht_links_consistent: next->prev = node, first->prev = head, every node in the bucket of its key",
-    "NOT proved (stated in Properties_C09.v at havl_refines_map_partial): that the key/value swap loop of "
-    "muggle_avl_tree_remove ('move data into leaf'; it writes no pointer) picks the data the functional model's rem "
-    "picks, hence heap-level removal of an INTERIOR node.  Covered instead by: the functional rem is proved and compared "
-    "with the C code on every case; the heap model is run alongside in the model driver on every case of <= 48 "
-    "operations (all exhaustive AVL cases) and must read back as the functional tree with consistent parent links "
-    "after every operation ('chk FAIL heap-model ...' otherwise)",
+    "assignment in the heap model breaks this proof (tried); havl_insert_refines (descent, linking of the new node, "
+    "retracing upward through the parent links, rebalance); havl_remove_refines: removal of an ARBITRARY node — the "
+    "key/value swap loop down to a leaf picks exactly the data the functional rem picks (predecessor first, else "
+    "successor), then unlink and retracing with rotations continuing upward (havl_remove_retrace_refines, "
+    "havl_remove_leaf_refines); hht_refines_map: EVERY history of put/find/remove on the chained table with sentinel "
+    "heads and prev/next links, any hash function; hht_links_consistent: next->prev = node, first->prev = head, every "
+    "node in the bucket of its key.  Nothing is left _partial.  The heap models are additionally run alongside in the "
+    "model driver on every case of <= 48 operations ('chk FAIL heap-model ...' if they get stuck, answer differently, "
+    "do not read back as the functional tree / bucket, or have an inconsistent link)",
+    "trie at heap level: not done (not cheap: the node type is nested through the children map, so a representation "
+    "predicate with footprints needs custom recursion; the trie has no back links, so the heap level would only add "
+    "absence of sharing between children arrays, which the driver's walk (dump of every stored key) and ASan observe)",
     "ONLY covered by the differential run + monitor + driver walk (not by theorems): that the Gallina models equal the C "
     "code (the tie itself: every result and the pre-order key=value:balance dump of the real tree compared after every "
     "operation; the driver walks parent links / chain links / bucket membership of the REAL nodes after every "
@@ -639,8 +640,8 @@ MANIFEST = {
                    "every result and the pre-order (key, value, balance) dump of the real tree, plus an independent Python "
                    "monitor (dict semantics, BST/height check from the dump) and a driver walk of parent links and chains.  "
                    "Heap-level models of the tree (left/right/parent) and of the chains (prev/next) are proved to refine the "
-                   "functional models with consistent links: rotations, rebalance, insert, remove-retracing, leaf removal, all "
-                   "hash-table operations (removal of an interior AVL node: swap loop not proved, cross-checked by execution)."),
+                   "functional models with consistent links for every history of operations (rotations, rebalance, insert, the "
+                   "data-swap loop / unlink / retracing of remove, all hash-table operations)."),
     "design_ref": "DESIGN.md section 6 / C09",
     "level_note": ("Trusted: Coq kernel, extraction (ExtrOcamlBasic), the differential harness.  Pointer structure (parent links, "
                    "chain splicing) is proved on hand-transcribed heap models and checked on the real nodes by the driver; "
